@@ -41,3 +41,9 @@ def fill(claim, NA):
         "Trusted: CrossHair+z3 string model incl. repaired regex matcher. Bounds: |s| <= 3 (5 thorough), 10 markers, truncation index <= 80; SAMI/DFXP own output produced concretely at import (bs4/cssutils do not run under tracing).",
         "CrossHair symbolic execution + z3 over symbolic strings",
     )
+    claim(
+        "C18",
+        "Equality, hashing and truthiness of all six geometry classes are translated from their ASTs to EUF+LRA and the laws (eq iff all geometric components equal, eq implies equal hash, symmetry) are discharged by z3 for every None-pattern with values over the reals; the regex compiled by Size.from_string is proved equivalent to the reference size grammar for all strings up to length 12 (20 thorough); parsing accept/reject, printing/re-parsing, padding shorthand order and non-mutation are checked by bounded symbolic execution.",
+        "Trusted: z3; AST->EUF translator (refuses unsupported syntax); regex->z3 translation with ASCII categories; CrossHair for the E1 part where magnitudes are finite choices (no symbolic floats).",
+        "AST->EUF/LRA and regex->SMT queries (z3) + CrossHair symbolic execution",
+    )
